@@ -32,4 +32,14 @@ PROPS = {
         trusted=["go-datastore MapDatastore + key cleaning; SHA-256 not modelled (keys carry their real identifier bits)"],
         assumptions=["Enqueue precondition: supplied keys match the supplied prefix (checked at the call sites by C17)"],
     ),
+    "C07": dict(
+        pkg="records", test="TestVerifC07", model="C07", level="proof", diff_is_failure=True,
+        rule="a case is a history of add/get/clock-advance/gc-sweep/restart/close ops on a real ProviderManager "
+             "(virtual clock, injected LRU of capacity 1-4, more keys than capacity); after every op the provider set, "
+             "the LRU key order and (on 'disk') the datastore content are compared with the model; non-trivial = the "
+             "history fills the cache and contains add, clock advance, gc and restart; distinct = distinct history text",
+        trusted=["go-datastore MapDatastore query/prefix semantics", "hashicorp simplelru", "testing/synctest virtual clock"],
+        assumptions=["collectExpired is modelled as one atomic sweep (the documented re-add/sweep race is excluded)"],
+        shards={"quick": 8, "thorough": 16},
+    ),
 }
